@@ -1123,7 +1123,7 @@ class HasTraits(CHasTraits, metaclass=MetaHasTraits):
             subclass._add_class_trait(name, trait, is_subclass=True)
 
     @classmethod
-    def _add_class_trait(cls, name, trait, is_subclass):
+    def _add_class_trait(cls, name, trait, is_subclass, is_shadow=False):
         """
         Add a named trait attribute to this class.
 
@@ -1142,6 +1142,10 @@ class HasTraits(CHasTraits, metaclass=MetaHasTraits):
             ``name``: in that circumstance, if ``is_subclass`` is False, an
             error will be raised, while if ``is_subclass`` is True, no trait
             will be added.
+        is_shadow : bool
+            True if the trait is the shadow trait (named "<name>_") of a
+            mapped trait: an ordinary trait under that very name, not a
+            wildcard declaration for the prefix "<name>".
 
         Raises
         ------
@@ -1154,7 +1158,7 @@ class HasTraits(CHasTraits, metaclass=MetaHasTraits):
         prefix_traits = class_dict[PrefixTraits]
 
         # See if the trait is a 'prefix' trait:
-        if name[-1:] == "_":
+        if name[-1:] == "_" and not is_shadow:
             name = name[:-1]
             if name in prefix_traits:
                 if is_subclass:
@@ -1193,6 +1197,7 @@ class HasTraits(CHasTraits, metaclass=MetaHasTraits):
                     name + "_",
                     mapped_trait_for(trait, name),
                     is_subclass=is_subclass,
+                    is_shadow=True,
                 )
 
         # Make the new trait inheritable (if allowed):
